@@ -473,6 +473,10 @@ def grammar_pool(rng, n_random, usize=True, names="plain", max_nt=4, max_t=4, ma
     for label, items, _cls in gen.families():
         out.append((label, items, gen.render(items), gen.to_oracle(items)))
     for k in range(n_random):
+        if k % 16 == 6:
+            items = gen.long_production_grammar(rng)
+            out.append((f"long{k}", items, gen.render(items), gen.to_oracle(items)))
+            continue
         if k % 4 == 1:
             items = gen.layered_grammar(rng)
             out.append((f"layered{k}", items, gen.render(items), gen.to_oracle(items)))
@@ -1063,7 +1067,10 @@ def accepted_pool(rng, n, names="plain", usize=False, attrs=False, derive=None):
     tries = 0
     while len(out) < n and tries < n * 6:
         tries += 1
-        items = gen.random_grammar(rng, names=names, payload="usize" if usize else "mixed", derive=(rng.random() < 0.5) if derive is None else derive, max_nt=4, max_t=4, maxlen=3)
+        if tries % 12 == 5:
+            items = gen.long_production_grammar(rng, derive=False)
+        else:
+            items = gen.random_grammar(rng, names=names, payload="usize" if usize else "mixed", derive=(rng.random() < 0.5) if derive is None else derive, max_nt=4, max_t=4, maxlen=3)
         if attrs:
             for it in items:
                 if it["kind"] != "start":
